@@ -22,6 +22,9 @@ func VpHSeq() {
 		if err := fn(&Txn{}); err != nil {
 			return err
 		}
+		// the transaction has read and staged its write but not committed: another goroutine may
+		// run here (it blocks on seq.lock if the caller holds it, as Next/Release must)
+		vpYield()
 		if vpBool("commitFails") {
 			vpCover("seq.commit-failed")
 			return vpErrCommit
@@ -76,25 +79,32 @@ func VpHSeq() {
 	var last [2]uint64
 	var hasLast [2]bool
 	steps := vpParam("seq.steps", 4)
+	nops := 4
+	if vpParam("seq.conc", 1) == 1 {
+		nops = 6
+	}
+	next := func(op int) {
+		n, err := seqs[op].Next()
+		if err != nil {
+			return
+		}
+		vpCover("seq.next-ok")
+		for _, g := range got {
+			vpAssert(g != n, "C30:seq.unique")
+		}
+		if hasLast[op] {
+			vpAssert(n > last[op], "C30:seq.increasing")
+		}
+		// every number handed out lies below the durable lease: a crash cannot cause reuse
+		vpAssert(exists && n < stored, "C30:seq.below-stored-lease")
+		got = append(got, n)
+		last[op], hasLast[op] = n, true
+	}
 	for st := 0; st < steps; st++ {
-		op := vpChoose("op", 4)
+		op := vpChoose("op", nops)
 		switch op {
 		case 0, 1:
-			n, err := seqs[op].Next()
-			if err != nil {
-				continue
-			}
-			vpCover("seq.next-ok")
-			for _, g := range got {
-				vpAssert(g != n, "C30:seq.unique")
-			}
-			if hasLast[op] {
-				vpAssert(n > last[op], "C30:seq.increasing")
-			}
-			// every number handed out lies below the durable lease: a crash cannot cause reuse
-			vpAssert(exists && n < stored, "C30:seq.below-stored-lease")
-			got = append(got, n)
-			last[op], hasLast[op] = n, true
+			next(op)
 		case 2:
 			_ = seqs[0].Release()
 			vpCover("seq.release")
@@ -107,6 +117,22 @@ func VpHSeq() {
 			vpCover("seq.reopen")
 			seqs[1] = s
 			hasLast[1] = false
+		case 4, 5:
+			// a second goroutine calls Next on the SAME Sequence object while Release (4) or
+			// Next (5) is in flight on it; it gets to run when the first one is inside its lease
+			// transaction (vpYield in the Update stub) and must then find seq.lock held
+			done := make(chan struct{}, 1)
+			go func() {
+				next(0)
+				done <- struct{}{}
+			}()
+			if op == 4 {
+				_ = seqs[0].Release()
+			} else {
+				next(0)
+			}
+			<-done
+			vpCover("seq.concurrent-next")
 		}
 	}
 }
